@@ -21,7 +21,7 @@ PROPS = {
     "C09": dict(runs=[("locate", 2000, 40000), ("cdt", 600, 8000), ("dt", 1200, 20000), ("small", 800, 15000)], lean_module="Spade.Properties.C09"),
     "C10": dict(runs=[("bulk", 12000, 60000)], lean_module="Spade.Properties.C10"),
     "C11": dict(runs=[("dt", 1600, 30000), ("cdt", 2800, 30000), ("small", 1200, 20000)], lean_module="Spade.Properties.C11"),
-    "C12": dict(runs=[("cdt", 1600, 30000), ("conq", 1000, 15000), ("conheavy", 200, 6000)], lean_module="Spade.Properties.C12"),
+    "C12": dict(runs=[("cdt", 1600, 30000), ("conq", 1000, 15000), ("conheavy", 200, 20000)], lean_module="Spade.Properties.C12"),
     "C13": dict(runs=[("split", 2000, 40000)], lean_module="Spade.Properties.C13"),
     "C14": dict(runs=[("hull", 1200, 20000), ("small", 1600, 30000), ("dt", 800, 10000), ("bulk", 12000, 60000)], lean_module="Spade.Properties.C14"),
     "C15": dict(runs=[("nn", 2000, 40000)], lean_module="Spade.Properties.C15"),
